@@ -1907,6 +1907,11 @@ type primaryCtx struct {
 }
 
 func newPrimaryCtx(parent context.Context, primaryCh chan struct{}) *primaryCtx {
+	// Derive a cancelable context so that context.Cause() reports the lost
+	// lease. Otherwise Cause() finds the parent's cancelation state through
+	// Value() and returns nil for as long as the parent itself is alive.
+	parent, cancel := context.WithCancelCause(parent)
+
 	ctx := &primaryCtx{
 		parent:    parent,
 		primaryCh: primaryCh,
@@ -1916,10 +1921,11 @@ func newPrimaryCtx(parent context.Context, primaryCh chan struct{}) *primaryCtx 
 	go func() {
 		select {
 		case <-ctx.primaryCh:
-			close(ctx.done)
+			cancel(ErrLeaseExpired)
 		case <-ctx.parent.Done():
-			close(ctx.done)
+			cancel(nil)
 		}
+		close(ctx.done)
 	}()
 
 	return ctx
